@@ -179,7 +179,9 @@ Location locate_hunk(const std::vector<Line>& content, const Hunk& hunk, bool ig
         };
 
         // First look for the hunk in the forward direction
-        for (LineNumber line = search_start; line < content_size; ++line) {
+        // NOTE: up to and including the very end of the file, where a hunk fits if all there is of its old lines
+        //       are lines at its end which fuzz ignores.
+        for (LineNumber line = search_start; line <= content_size; ++line) {
             if (hunk_matches_starting_from_line(line))
                 return { line, fuzz, line - offset_guess };
         }
